@@ -60,7 +60,7 @@ type traceOp struct {
 
 // watchdog: ~50x the typical 0.2-0.5 s of one execution; a timeout is
 // re-run once, alone, before it counts as a hang.
-const genWatchdog = 20 * time.Second
+const genWatchdog = 60 * time.Second
 
 var retryMu sync.Mutex
 
